@@ -262,7 +262,11 @@ impl Matrix {
                 _ => unreachable!(),
             },
             Constructor::Variant((enum_def, idx)) => {
-                let data_ty = data_ty_of_variant(statics, enum_def, *idx);
+                let enum_args: &[Type] = match &expanded.types[0] {
+                    Type::Nominal(_, args) => args,
+                    _ => &[],
+                };
+                let data_ty = data_ty_of_variant(statics, enum_def, *idx, enum_args);
                 match data_ty {
                     Type::Never => unreachable!(),
                     Type::InterfaceOutput(..) => unreachable!(),
@@ -537,9 +541,9 @@ impl DeconstructedPat {
             {
                 struct_field_tys(statics, struct_def, args)
             }
-            Type::Nominal(_, _) => match ctor {
+            Type::Nominal(_, args) => match ctor {
                 Constructor::Variant((enum_def, idx)) => {
-                    let data_ty = data_ty_of_variant(statics, enum_def, *idx);
+                    let data_ty = data_ty_of_variant(statics, enum_def, *idx, args);
 
                     if !matches!(data_ty, Type::Void) {
                         vec![data_ty.clone()]
@@ -619,16 +623,30 @@ fn subst_solved_ty(ty: &Type, subst: &HashMap<PolytypeDeclaration, Type>) -> Typ
     }
 }
 
-fn data_ty_of_variant(statics: &StaticsContext, enum_def: &Rc<EnumDef>, idx: usize) -> Type {
+fn data_ty_of_variant(
+    statics: &StaticsContext,
+    enum_def: &Rc<EnumDef>,
+    idx: usize,
+    args: &[Type],
+) -> Type {
+    // instantiate the enum's type parameters (e.g. T := bool for option<bool>)
+    let mut subst: HashMap<PolytypeDeclaration, Type> = HashMap::default();
+    for (i, ty_arg) in enum_def.ty_args.iter().enumerate() {
+        if let Some(Declaration::Polytype(decl)) = statics.resolution_map.get(&ty_arg.name.id)
+            && i < args.len()
+        {
+            subst.insert(decl.clone(), args[i].clone());
+        }
+    }
     let variant = &enum_def.variants[idx];
     let variant_data = &variant.fields;
     match variant_data.len() {
         0 => Type::Void,
-        1 => variant_data[0].ty.to_solved_type(statics).unwrap(),
+        1 => subst_solved_ty(&variant_data[0].ty.to_solved_type(statics).unwrap(), &subst),
         _ => Type::Tuple(
             variant_data
                 .iter()
-                .map(|field| field.ty.to_solved_type(statics).unwrap())
+                .map(|field| subst_solved_ty(&field.ty.to_solved_type(statics).unwrap(), &subst))
                 .collect(),
         ),
     }
